@@ -1389,9 +1389,12 @@ func (t *Tr) lockOp(li *LockInv, op string, cc *ssa.CallCommon, pos token.Pos) {
 // pseudoCall: channel sends are treated like calls of "send.<channel variable>"(chan, value) so that
 // call-site clauses and ghost statements can be attached to them.
 func (t *Tr) pseudoCall(ch ssa.Value, val ssa.Value, pos token.Pos) {
-	name := "send." + chanName(ch)
+	t.pseudoCallNamed("send."+chanName(ch), []ssa.Value{ch, val}, pos)
+}
+
+func (t *Tr) pseudoCallNamed(name string, args []ssa.Value, pos token.Pos) {
 	t.callOrd[name]++
-	t.pseudoArgs = []ssa.Value{ch, val}
+	t.pseudoArgs = args
 	t.callSiteClauses(name, t.callOrd[name], nil, pos)
 	for _, gs := range t.ghostAt["after"] {
 		if calleeMatches(gs.callee, name) && (gs.ord == 0 || gs.ord == t.callOrd[name]) {
